@@ -7,6 +7,8 @@ import (
 	sdk "github.com/cosmos/cosmos-sdk/types"
 	gogotypes "github.com/cosmos/gogoproto/types"
 
+	"google.golang.org/protobuf/proto"
+
 	"github.com/regen-network/regen-ledger/x/data/v3"
 
 	"verif/eng"
@@ -112,7 +114,7 @@ func (m *C16) check(w *eng.World, pre, post *snap.Snap, where string, blockNanos
 	// resolvers and registrations are never lost or changed
 	for t := range map[string]bool{"regen.data.v1.Resolver": true, "regen.data.v1.DataResolver": true} {
 		for pk, row := range pre.Rows[t] {
-			if nr, ok := post.Rows[t][pk]; !ok || !bytes.Equal(nr, row) {
+			if nr, ok := post.Rows[t][pk]; !ok || !proto.Equal(nr, row) {
 				w.Violation("C16", "registration-lost-or-changed", "%s: row %s of %s changed or disappeared", where, pk, t)
 			}
 		}
